@@ -15,10 +15,10 @@ ASSUMPTIONS = ["a task process counts as running from its spawn until its exit e
                "group/combine steps are instantaneous at their 'Running' print"]
 ESSENTIAL = ["slot_reused_out_of_order", "sequential_ready_while_parallel_inflight", "sync_step_with_parallel_tasks",
              "more_ready_than_slots", "launch_failure_in_parallel_mode", "jobs_absent", "jobs=1", "cond_slot_in_conductors_own_environment"]
-TECHNIQUE = "property-based testing (Hypothesis) under a virtual kernel; instantaneous invariants replayed over the spawn/exit log"
+TECHNIQUE = "property-based testing (Hypothesis) under a virtual kernel; instantaneous invariants replayed over the spawn/exit log; one case in 16 runs real task processes (order read from one O_APPEND log, no clock)"
 LEVEL_TEXT = ("Randomised search over graphs x parallelizable flags x --jobs x completion orders; every spawn's COND_SLOT and the "
               "running set at each instant are checked against the documented limits. Search, not proof.")
-LEVEL_NOTE = "Trusted: vf/kernel.py spawn/exit log."
+LEVEL_NOTE = "Trusted: (real-process share: vf/reallayer.py, the serialisation of O_APPEND writes) vf/kernel.py spawn/exit log."
 
 
 def strategy(tier):
